@@ -24,7 +24,10 @@ from sim.canon import canon_from_records, canon_table, describe_diff, tables_equ
 from sim.core import EventLog, SimAbort, Stats, Violation, result_ok, result_violation, stream
 
 PROP = "C20"
-KEYS = ["a", "b", "c", "da_temp_1", "da_temp_2", "da_temp_3"]
+LONG1 = "k" * 66 + "1"
+LONG2 = "k" * 66 + "2"
+# user keys a,b,c; names that coincide with automatic ones; names that a careless sanitiser / length cut-off would merge
+KEYS = ["a", "b", "c", "da_temp_1", "da_temp_2", "da_temp_3", "t 1", "t_1", LONG1, LONG2]
 REPLICAS = ["pd", "pl", "db"]
 SPACE_NAME = {"pd": "DataModelSpace[pandas]", "pl": "DataModelSpace[polars]", "db": "DBSpace[sqlite]"}
 
@@ -150,8 +153,8 @@ def m_apply(tab, steps, model, prefix_fn=None):
     return tab
 
 
-MAX_JOIN_WORK = 4096
-MAX_ROWS = 96
+MAX_JOIN_WORK = 60000
+MAX_ROWS = 2000
 
 
 def _uniq(xs):
@@ -266,6 +269,8 @@ def model_canon(tab) -> Dict[str, Any]:
 # ---------------------------------------------------------------- generation --------------------------
 def _gen_table(rd, shape) -> Dict[str, Any]:
     n = rd.choice([0, 1, 2, 3, 3, 4, 5, 6])
+    if rd.random() < 0.04:
+        n = rd.choice([120, 600, 1500])  # above any plausible batch / chunk / sample size
     cols = [{"name": "k", "type": "i", "values": [rd.randrange(1, 4) for _ in range(n)]}]
     if shape in (0, 1, 2):
         cols.append({"name": "x", "type": "i", "values": [rd.randrange(-5, 20) for _ in range(n)]})
@@ -379,8 +384,9 @@ def generate(run_seed: int, cfg: Dict[str, Any]) -> Dict[str, Any]:
     n_clients = rk.choice([2, 3])
     n_ops = rk.randint(cfg.get("min_ops", 4), cfg.get("max_ops", 22))
     n_keys = rk.choice([2, 3, 4, 6])
-    alphabet = (KEYS[:3] + KEYS[3:])[:]
     alphabet = sorted(rk.sample(KEYS[:3], min(3, max(1, n_keys - 1)))) + KEYS[3:3 + max(0, n_keys - 2)]
+    if rk.random() < 0.25:
+        alphabet = alphabet + rk.choice([["t 1", "t_1"], [LONG1, LONG2]])
     auto_rate = rk.choice([0.1, 0.3, 0.5])
     w = rk.choice([(4, 4, 2, 1, 1, 1), (6, 2, 2, 1, 1, 1), (2, 6, 2, 1, 1, 1), (3, 3, 4, 2, 1, 1)])
     # generation-time belief about columns per key, assuming fault-free outcomes (may be wrong: that is fine)
@@ -594,6 +600,17 @@ class Harness:
                 self.conn.sim.inspecting -= 1
 
 
+def _case_twins(ops) -> bool:
+    seen = {}
+    for o in ops:
+        k = o.get("key")
+        if isinstance(k, str):
+            if k.lower() in seen and seen[k.lower()] != k:
+                return True
+            seen[k.lower()] = k
+    return False
+
+
 def _is_descr(x) -> bool:
     return getattr(x, "node_name", None) == "TableDescription"
 
@@ -709,6 +726,9 @@ def _run(scn, log: EventLog, stats: Stats):
             # lost binding, debris that makes a later operation misbehave). The signature therefore names only the
             # root cause - which statement of which operation failed - which is a closed set fixed by the code's
             # statement structure.
+            if scn["replica"] == "db" and _case_twins(scn["ops"][: step + 1]):
+                # SQLite table names are case-insensitive while the space's keys are not: a separate, listed finding
+                return Violation((PROP, rep, "keys-differing-only-in-case-share-a-table"), f"{name}: {cls}: {detail}", step)
             if last_fault != "no-fault" and scn["replica"] == "db":
                 when = "during" if fired else "later"
                 return Violation((PROP, rep, "not-atomic-under-db-fault", last_fault),
